@@ -580,6 +580,15 @@ impl CellBuffer {
         &self.escaped_text
     }
 
+    /// verification hook: result of the endorsement stage, before scaling:
+    /// (top-level fragments incl. quoted texts, grouped fragments)
+    pub fn verif_endorse(&self) -> (Vec<FragmentSpan>, Vec<Vec<FragmentSpan>>) {
+        let Endorse { accepted, rejects } = self.endorse_to_fragment_spans();
+        let mut fragments = accepted;
+        fragments.extend(self.escaped_text_nodes());
+        (fragments, rejects)
+    }
+
     /// verification hook: the private `escape_line`
     pub fn verif_escape_line(
         line: usize,
